@@ -6,6 +6,10 @@
       divFloor, divFloorNTT, divFloorMany, divFloorManyNTT,
       divRound, divRoundNTT, divRoundMany, divRoundManyNTT
   None of them modifies its input (`DivRoundByLastModulus` did before the repair C02-1 of /repo).
+  `Xf`, `div*NTTX`: the same NTT-domain functions for either ring type (standard / conjugate-invariant);
+  with `xfStd` they ARE `div*NTT` (`rfl`), with `xfCI` they are tied only (driver op `divci`).
+  Proved (Proofs/ScalingRefine.lean, ScalingNTT.lean, ScalingNTTRange.lean): every limb of all 8 standard-ring
+  functions = residue (resp. forward NTT of the residues) of the floored / round-half-up quotient, every ring degree.
 
   INTEGER LEVEL (the specification the limb level refines, Proofs/Scaling*.lean):
       divFloorRes / divFloorInt / divRoundInt : the per-modulus formula on residues.
